@@ -463,3 +463,24 @@ def network_names(env):
     return dict(name='network_names', validates='on real networks (TLS with SNI resolution in rustls and name matching in webpki, which no contract covers): all 20 ordered pairs of 5 networks with primary / alternate names',
                 cases=len(pairs), failed=fails, ok=not fails, props=['C14'],
                 clause='two endpoints connect exactly when the dialer\'s primary network name is one the listener accepts (its primary or alternate name); endpoints of different networks never connect in either direction')
+
+
+def claimed_name_grid(env):
+    """C14 with an adversarial dialer (bare quinn / rustls client through no anemo code): claimed name in the TLS hello x name the presented certificate is
+    issued for, against a listener with one name and one with an alternate; the dialer accepts any listener certificate"""
+    got = _run('claimed_name_grid', {}, env, timeout=240)
+    fails = []
+    if got.get('panicked'):
+        fails.append(dict(scenario='claimed_name_grid', args={}, expected=dict(note='no panic'), observed=got))
+    cells = got.get('cells') or []
+    accepted = dict(single=('net-a',), with_alternate=('net-a', 'net-old'))
+    for c in cells:
+        want = c['claimed'] in accepted[c['listener']] and c['certificate_for'] in accepted[c['listener']]
+        if c['listed'] != want or c['acknowledged'] != want:
+            fails.append(dict(scenario='claimed_name_grid', args=dict(listener_accepts=list(accepted[c['listener']]), claimed=c['claimed'], certificate_for=c['certificate_for']),
+                              expected=dict(acknowledged=want, listed=want), observed=c))
+    if not fails and len(cells) != 24:
+        raise Undecided('claimed_name_grid scenario reported %d cells' % len(cells))
+    return dict(name='claimed_name_grid', validates='the listener side on the real crate against a dialer that is not anemo: 24 combinations of claimed name x certificate name x listener configuration; admitted (acknowledged and listed) exactly when the claimed name is one the listener accepts AND the certificate is valid for a name the listener accepts',
+                cases=len(cells), failed=fails, ok=not fails, props=['C14'],
+                clause='a dialer is admitted only if the network name it claims is one the listener accepts and its certificate is valid for an accepted name; a peer that claims one network\'s name while presenting a certificate issued for another network is rejected')
